@@ -429,20 +429,11 @@ impl Runner for RV {
             Err(m) => Answer::fail(ans, "value-compile-panic", format!("compiling the printed value panicked: {}", m)),
             Ok("ok") => Answer::ok(ans),
             Ok(stage) => {
-                let depth = value_depth(&value);
-                let key = if depth > PARSER_MAX_DEPTH && stage == "parse" { "value-roundtrip:depth-over-parser-max".to_string() } else { format!("value-roundtrip:{}", stage) };
-                Answer::fail(ans, key, format!("printed value does not compile back to the same value (stage {}, depth {}): {}", stage, depth, text.replace('\n', " ")))
+                let (sd, td) = depths(&value);
+                let key = if stage == "parse" && sd <= PARSER_MAX_DEPTH && td == PARSER_MAX_DEPTH + 1 { "value-roundtrip:depth:string-wrapped-leaf-at-max-depth".to_string() } else { format!("value-roundtrip:{}", stage) };
+                Answer::fail(ans, key, format!("printed value does not compile back to the same value (stage {}, SBOR depth {}, text depth {}): {}", stage, sd, td, text.replace('\n', " ")))
             }
         }
-    }
-}
-
-fn value_depth(v: &ManifestValue) -> usize {
-    match v {
-        Value::Enum { fields, .. } | Value::Tuple { fields } => 1 + fields.iter().map(value_depth).max().unwrap_or(0),
-        Value::Array { elements, .. } => 1 + elements.iter().map(value_depth).max().unwrap_or(0),
-        Value::Map { entries, .. } => 1 + entries.iter().map(|(k, v)| value_depth(k).max(value_depth(v))).max().unwrap_or(0),
-        _ => 1,
     }
 }
 
@@ -482,7 +473,30 @@ impl Area for AV {
     }
     fn consts(&self) -> Vec<(String, String)> {
         let ks: Vec<String> = all_kinds().iter().map(|k| format!("\"{}\"", format_value_kind(k))).collect();
+        // the Unicode table behind ManifestCustomCharEscaper, as maximal ranges of code points
+        let mut ranges: Vec<(u32, u32)> = vec![];
+        let mut cur: Option<(u32, u32)> = None;
+        for cp in 0u32..=0x10FFFF {
+            let esc = match char::from_u32(cp) {
+                Some(c) => radix_rust::unicode::rust_1_81_should_unicode_escape_in_debug_str(c),
+                None => false,
+            };
+            match (esc, cur) {
+                (true, None) => cur = Some((cp, cp)),
+                (true, Some((a, _))) => cur = Some((a, cp)),
+                (false, Some(r)) => {
+                    ranges.push(r);
+                    cur = None;
+                }
+                (false, None) => {}
+            }
+        }
+        if let Some(r) = cur {
+            ranges.push(r);
+        }
+        let rs: Vec<String> = ranges.iter().map(|(a, b)| format!("({}, {})", a, b)).collect();
         vec![
+            ("escapeRanges".to_string(), format!("[{}]\traw\tList (Nat × Nat)", rs.join(", "))),
             ("kindNames".to_string(), format!("[{}]\traw\tList String", ks.join(", "))),
             ("OPTION_VARIANT_NONE".to_string(), OPTION_VARIANT_NONE.to_string()),
             ("OPTION_VARIANT_SOME".to_string(), OPTION_VARIANT_SOME.to_string()),
@@ -498,6 +512,8 @@ fn odd_name(rng: &mut Rng, base: &str, i: usize) -> String {
         0 => format!("{}{} é", base, i),
         1 => format!("{}-{}", base, i),
         2 => format!("{} {}", base, i),
+        3 => format!("{}\"{}", base, i),
+        4 => format!("{}\\{}", base, i),
         _ => format!("{}{}", base, i + 1),
     }
 }
@@ -773,8 +789,12 @@ macro_rules! roundtrip {
         match back {
             Err(p) => Answer::fail(ans, "recompile-panic", format!("compile of decompiled text panicked: {} :: {}", p, shown)),
             Ok(Err(e)) => {
-                let key = classify_compile_error(&m.object_names, &format!("{:?}", e));
-                Answer::fail(ans, key, format!("decompiled text does not compile: {:?} :: {}", e, shown))
+                let mut key = classify_compile_error(&m.object_names, &format!("{:?}", e));
+                let (sd, td) = arg_depths(&m.instructions);
+                if key == "recompile-error:depth" {
+                    key = if sd <= PARSER_MAX_DEPTH { "recompile-error:depth:string-wrapped-leaf-at-max-depth".to_string() } else { "recompile-error:depth:beyond-sbor-limit".to_string() };
+                }
+                Answer::fail(ans, key, format!("decompiled text does not compile (deepest argument: SBOR depth {}, text depth {}): {:?} :: {}", sd, td, e, shown))
             }
             Ok(Ok(m2)) => {
                 if m2.instructions != m.instructions {
@@ -796,6 +816,41 @@ macro_rules! roundtrip {
             }
         }
     }};
+}
+
+/// (SBOR depth, textual nesting depth the parser sees) of a value: custom values, `Bytes` and the
+/// `NonFungibleGlobalId` shape are written as `Name("…")`, i.e. two parser levels.
+fn depths(v: &ManifestValue) -> (usize, usize) {
+    let kids = |vs: Vec<&ManifestValue>| -> (usize, usize) {
+        let mut a = 0;
+        let mut b = 0;
+        for x in vs {
+            let (p, q) = depths(x);
+            a = a.max(p);
+            b = b.max(q);
+        }
+        (1 + a, 1 + b)
+    };
+    match v {
+        Value::Custom { .. } => (1, 2),
+        Value::Array { element_value_kind: ValueKind::U8, elements } => (if elements.is_empty() { 1 } else { 2 }, 2),
+        Value::Tuple { fields } if fields.len() == 2 && matches!((&fields[0], &fields[1]), (Value::Custom { value: ManifestCustomValue::Address(ManifestAddress::Static(_)) }, Value::Custom { value: ManifestCustomValue::NonFungibleLocalId(_) })) => (2, 2),
+        Value::Enum { fields, .. } | Value::Tuple { fields } => kids(fields.iter().collect()),
+        Value::Array { elements, .. } => kids(elements.iter().collect()),
+        Value::Map { entries, .. } => kids(entries.iter().flat_map(|(k, v)| [k, v]).collect()),
+        _ => (1, 1),
+    }
+}
+
+/// depths of the deepest instruction argument, relative to the argument itself
+fn arg_depths<T: ManifestEncode>(instructions: &T) -> (usize, usize) {
+    match manifest_encode(instructions).ok().and_then(|b| manifest_decode::<ManifestValue>(&b).ok()) {
+        Some(v) => {
+            let (a, b) = depths(&v);
+            (a.saturating_sub(3), b.saturating_sub(3))
+        }
+        None => (usize::MAX, usize::MAX),
+    }
 }
 
 fn names_have_special(n: &ManifestObjectNames) -> bool {
